@@ -243,6 +243,8 @@ func (db *DB) NewUpload(ctx context.Context) (*Upload, error) {
 		return nil, err
 	}
 
+	verifPoint("newupload.read", lastID)
+
 	num++
 
 	id := fmt.Sprintf("%s.%d", day, num)
@@ -251,10 +253,12 @@ func (db *DB) NewUpload(ctx context.Context) (*Upload, error) {
 	if err != nil {
 		return nil, err
 	}
+	verifPoint("newupload.inserted", id)
 	if err := tx.Commit(); err != nil {
 		return nil, err
 	}
 	tx = nil
+	verifPoint("newupload.committed", id)
 
 	utx, err := db.sql.Begin()
 	if err != nil {
